@@ -195,10 +195,193 @@ def unit_broadphase_count(kind):
   return (f"broadphase-count/{kind}", run)
 
 
+class HostUnsupported(Exception):
+  pass
+
+
+def _host_guard_paths(fn, stage_names):
+  """S mode (host Python, read from the current source): walk the top-level statements of a host function up to the first statement
+  that calls one of `stage_names`; every `if <test>: ... return` met before is an early-out.  Returns (z3 condition under which
+  the stage is NOT reached, dict of symbolic inputs).  Anything not understood raises HostUnsupported (harness error, never a pass)."""
+  import ast
+  import inspect
+  import textwrap
+
+  f = inspect.unwrap(fn)
+  tree = ast.parse(textwrap.dedent(inspect.getsource(f))).body[0]
+  glob = f.__globals__
+  syms = {}
+
+  def sym(name, kind):
+    if name not in syms:
+      syms[name] = z3.Int(name) if kind == "int" else (z3.BitVec(name, 32) if kind == "bv" else z3.Bool(name))
+    return syms[name]
+
+  def dotted(e):
+    parts = []
+    while isinstance(e, ast.Attribute):
+      parts.append(e.attr)
+      e = e.value
+    if isinstance(e, ast.Name):
+      parts.append(e.id)
+      return ".".join(reversed(parts))
+    return None
+
+  env = {}
+
+  def truth(v):
+    if z3.is_bool(v):
+      return v
+    if z3.is_bv(v):
+      return v != 0
+    if z3.is_int(v):
+      return v != 0
+    if isinstance(v, bool):
+      return z3.BoolVal(v)
+    if isinstance(v, int):
+      return z3.BoolVal(v != 0)
+    raise HostUnsupported(f"truth value of {v!r}")
+
+  def bv(v):
+    if z3.is_bv(v):
+      return v
+    if isinstance(v, int):
+      return z3.BitVecVal(int(v), 32)
+    raise HostUnsupported(f"bit operation on {v!r}")
+
+  def ev(e):
+    if isinstance(e, ast.Constant):
+      return e.value
+    name = dotted(e)
+    if name is not None:
+      if name in env:
+        return env[name]
+      root = name.split(".")[0]
+      if root in glob:  # enum members such as DisableBit.CONTACT: concrete
+        try:
+          return int(eval(name, glob))
+        except Exception as ex:
+          raise HostUnsupported(f"global {name}: {ex}")
+      if name.endswith("flags"):
+        return sym(name, "bv")
+      if name.split(".")[-1] in ("naconmax", "njmax", "njmax_nnz", "nvmax", "nv", "nworld"):
+        return sym(name, "int")
+      return sym(name, "opaque")
+    if isinstance(e, ast.BoolOp):
+      vs = [truth(ev(x)) for x in e.values]
+      return z3.Or(*vs) if isinstance(e.op, ast.Or) else z3.And(*vs)
+    if isinstance(e, ast.UnaryOp) and isinstance(e.op, ast.Not):
+      return z3.Not(truth(ev(e.operand)))
+    if isinstance(e, ast.BinOp) and isinstance(e.op, (ast.BitAnd, ast.BitOr)):
+      a, b = ev(e.left), ev(e.right)
+      if isinstance(a, int) and isinstance(b, int):
+        return a & b if isinstance(e.op, ast.BitAnd) else a | b
+      return bv(a) & bv(b) if isinstance(e.op, ast.BitAnd) else bv(a) | bv(b)
+    if isinstance(e, ast.Compare) and len(e.ops) == 1:
+      op = e.ops[0]
+      if isinstance(op, (ast.Is, ast.IsNot)) and isinstance(e.comparators[0], ast.Constant) and e.comparators[0].value is None:
+        isn = sym((dotted(e.left) or "expr") + " is None", "bool")
+        return isn if isinstance(op, ast.Is) else z3.Not(isn)
+      a, b = ev(e.left), ev(e.comparators[0])
+      tbl = {ast.Eq: lambda x, y: x == y, ast.NotEq: lambda x, y: x != y, ast.Lt: lambda x, y: x < y, ast.LtE: lambda x, y: x <= y, ast.Gt: lambda x, y: x > y, ast.GtE: lambda x, y: x >= y}
+      if type(op) in tbl and not any(z3.is_bool(x) for x in (a, b)):
+        if z3.is_bv(a) or z3.is_bv(b):
+          a, b = bv(a), bv(b)
+        return tbl[type(op)](a, b)
+    raise HostUnsupported(f"expression {ast.dump(e)[:120]}")
+
+  def calls_stage(node):
+    return any(isinstance(n, ast.Call) and (dotted(n.func) or "").split(".")[-1] in stage_names for n in ast.walk(node))
+
+  def has_return(body):
+    return any(isinstance(n, ast.Return) for st in body for n in ast.walk(st))
+
+  early = []
+  for st in tree.body:
+    if calls_stage(st):
+      return z3.Or(*early) if early else z3.BoolVal(False), syms
+    if isinstance(st, ast.Expr):  # docstring, in-place helpers (zero_()): no control flow
+      continue
+    if isinstance(st, (ast.Assign, ast.AnnAssign)):
+      tgt = st.targets[0] if isinstance(st, ast.Assign) else st.target
+      if isinstance(tgt, ast.Name):
+        try:
+          env[tgt.id] = ev(st.value)
+        except HostUnsupported:
+          env[tgt.id] = sym(tgt.id, "opaque")
+      continue
+    if isinstance(st, ast.If):
+      if has_return(st.body) or has_return(st.orelse):
+        if st.orelse or not isinstance(st.body[-1], ast.Return):
+          raise HostUnsupported(f"early-out shape at line {st.lineno}")
+        early.append(truth(ev(st.test)))
+      continue
+    raise HostUnsupported(f"statement {type(st).__name__} at line {st.lineno}")
+  raise HostUnsupported(f"no call of {stage_names} found in {f.__qualname__}")
+
+
+_NAC_XML = """<mujoco><worldbody><geom type="plane" size="5 5 .1"/><body pos="0 0 0.05"><freejoint/><geom type="sphere" size=".1"/></body></worldbody></mujoco>"""
+
+
+def _replay_host_collision(naconmax, flags):
+  """real public API: one sphere resting in the plane; capacity `naconmax` vs ample capacity"""
+  import mujoco
+  import numpy as np
+
+  import mujoco_warp as mjw
+
+  mjm = mujoco.MjModel.from_xml_string(_NAC_XML)
+  mjm.opt.disableflags = int(flags)
+  m = mjw.put_model(mjm)
+  out = []
+  for cap in (int(naconmax), 16):
+    d = mjw.make_data(mjm, nworld=1, naconmax=cap, njmax=16)
+    mjw.step(m, d)
+    out.append((int(d.overflow.numpy()[0]), int(d.nacon.numpy()[0]), d.qvel.numpy()[0].copy()))
+  (ov, nc, qv), (ov2, nc2, qv2) = out
+  bad = ov == 0 and not np.allclose(qv, qv2, atol=1e-6)
+  return bad, f"sphere resting in a plane, make_data(naconmax={naconmax}), disableflags={flags}: overflow={ov}, nacon={nc}, qvel[2]={qv[2]:.5f}; ample capacity: nacon={nc2}, qvel[2]={qv2[2]:.5f}"
+
+
+def unit_host_guards(ctx):
+  """C16 'every capacity swept from zero': the host function must reach the stage that COUNTS (broadphase: ncollision) for every
+  capacity value, otherwise _next_time has nothing to raise a bit from."""
+  from mujoco_warp._src import collision_driver as cd
+  from mujoco_warp._src import types
+
+  ctx.encode(cd.collision)
+  ctx.bound(host_function="collision_driver.collision: top-level statements up to the first broadphase call; nested control flow inside helper calls is not followed")
+  ctx.assume("capacities are non-negative ints", "CONTACT and CONSTRAINT are enabled (disabled collision is not an overflow)", "only the flag bits of DisableBit are set")
+  skip, syms = _host_guard_paths(cd.collision, ("nxn_broadphase", "sap_broadphase"))
+  cap = next((v for k, v in syms.items() if k.endswith("naconmax")), None)
+  flg = next((v for k, v in syms.items() if k.endswith("disableflags")), None)
+  if cap is None:
+    cap = z3.Int("d.naconmax")
+  if flg is None:
+    flg = z3.BitVec("m.opt.disableflags", 32)
+  D = types.DisableBit
+  allbits = 0
+  for b in D:
+    allbits |= int(b)
+  pre = [cap >= 0, (flg & z3.BitVecVal(int(D.CONTACT) | int(D.CONSTRAINT), 32)) == 0, (flg & z3.BitVecVal(~allbits & 0xFFFFFFFF, 32)) == 0]
+  sess = ctx.session(pre)
+  ctx.reach(sess, "twin:reachable", cap == 3)
+  ctx.reach(ctx.session([cap >= 1]), "twin:disabled-collision-skips", z3.And(skip, (flg & z3.BitVecVal(int(D.CONTACT), 32)) != 0))
+
+  def rp(model):
+    n = kh.mval(model, cap)
+    fl = kh.mval(model, flg)
+    return _replay_host_collision(int(str(n)), int(str(fl)))
+
+  ctx.prove(sess, "broadphase-reached-for-every-capacity", z3.Not(skip), True, names={"naconmax": cap, "disableflags": flg}, replay=rp,
+            desc="collision() returns before the broadphase for some capacity although collision is enabled: candidate pairs are not counted, so no overflow bit can be raised and the step differs from the one with ample capacity")
+
+
 def main(tier, seed, only=None):
   units = [unit_rows(b, s) for b in BUILDERS for s in (SPECS if tier == "thorough" else SPECS[:2])]
   units.append(("next_time", unit_next_time))
   units += [unit_broadphase_count("sap"), unit_broadphase_count("nxn")]
+  units.append(("host/collision", unit_host_guards))
   if only:
     units = [u for u in units if any(o in u[0] for o in only)]
   return report.run_check(PID, units, tier, seed)
